@@ -816,9 +816,10 @@ def exhaustive_histories(depth):
   def grow(prefix, d):
     hr = HistoryRun()
     for op in prefix:
-      hr.step(op)
-    if d == 0:
-      return [prefix]
+      if not hr.dead:
+        hr.step(op)
+    if d == 0 or hr.dead:
+      return [prefix]  # (a dead prefix is reported when run_histories replays it)
     new = [i for i in range(5, len(hr.roots)) if kind_of(hr.roots[i]) != 'leaf'][-2:]
     out = []
     for op in _catalogue(hr.roots, [0, 2, 4] + new):
@@ -1186,7 +1187,7 @@ def run(ctx):
     'the FrozenDict stored back into the source) over the 15-16 operation alphabet per handle' + ('; plus 12000 sampled three-operation continuations' if thorough else '')
   )
   ctx.count('exhaustive_histories', 'depth2+', len(exh))
-  n_hist = 2500 if not thorough else 40000
+  n_hist = 1500 if not thorough else 40000
   err = steps = 0
   for i in range(0, n_hist, 400):
     e, s = run_histories(ctx, drv, min(400, n_hist - i))
